@@ -26,14 +26,14 @@ type C02Spec struct {
 }
 
 // knobZeroTrials: the caller really means MaxTrials = 0 (otherwise 0 is "leave the default").
-var knobZeroTrials bool
+var knobZeroTrials, knobZeroFail bool
 
 func withKnobs(maxTrials int, maxFail float64, f func()) {
 	oldT, oldF := spg.MaxTrials, spg.MaxFailRate
 	if maxTrials != 0 || knobZeroTrials {
 		spg.MaxTrials = maxTrials // zero and negative values are legal assignments to the exported knob
 	}
-	if maxFail > 0 {
+	if maxFail > 0 || knobZeroFail {
 		spg.MaxFailRate = maxFail
 	}
 	defer func() { spg.MaxTrials, spg.MaxFailRate = oldT, oldF }()
